@@ -88,7 +88,7 @@ int SimulateAvr8::set_reg(const char *reg_string,uint32_t value)
 
   int index = get_register_avr8(reg_string);
 
-  if (index == -1)
+  if (index < 0 || index > 31)
   {
     // Add flags here
     return -1;
